@@ -86,11 +86,11 @@ def hostile_text(rnd, allow_escaped=True, allow_lone=True):
     n = 1 if k < 0.35 else rnd.randint(2, 4)
     parts = [rnd.choice(ATOMS) for _ in range(n)]
     r = rnd.random()
-    if allow_escaped and r < 0.06:
+    if allow_escaped and r < 0.12:
         parts.insert(rnd.randint(0, len(parts)), rnd.choice(ESCAPED))
-    elif allow_lone and r < 0.08:
+    elif allow_lone and r < 0.14:
         parts.insert(rnd.randint(0, len(parts)), rnd.choice(LONE))
-    elif r < 0.12:
+    elif r < 0.18:
         parts.append("w" * rnd.randint(30, 80))
     return "".join(parts)
 
@@ -347,6 +347,15 @@ def expected_csv_rows(obss, o):
     return rows
 
 
+def canon(s):
+    """what a reader of the written BYTES sees: adjacent escaped bytes that happen to form valid UTF-8 decode to the
+    character (inherent to surrogateescape; the bytes themselves are preserved)"""
+    try:
+        return s.encode("utf-8", "surrogateescape").decode("utf-8", "surrogateescape")
+    except UnicodeEncodeError:
+        return s
+
+
 def resolve_escapes(s):
     for a, b in ((r"\r", "\r"), (r"\n", "\n"), (r"\t", "\t")):
         s = s.replace(a, b)
@@ -573,7 +582,8 @@ def gen_template(rnd, recs):
         if k < 0.3:
             parts.append(rnd.choice(["", " ", ",", "x=", "{{", "}}", "{{lit}}", "\\t", "\\n", "\\r", "|", "\u00e9", "\U0001f600", ":", "!"]))
         elif k < 0.75 and fields:
-            name, tname = rnd.choice(fields)
+            textual = [f for f in fields if f[1] in TEXT_TYPES]
+            name, tname = rnd.choice(textual if textual and rnd.random() < 0.5 else fields)
             j = rnd.random()
             if j < 0.5:
                 parts.append("{%s}" % name)
@@ -649,7 +659,7 @@ def classify_texts(texts):
     return None
 
 
-def run_sequence(ctx, rep, rnd, idx, script, workdir, cfgname="gen_cfg", collect=None, origin="hostile"):
+def run_sequence(ctx, rep, rnd, idx, script, workdir, cfgname="gen_cfg", collect=None, origin="hostile", plan=None):
     """Runs every writer on the write script (records and Twin markers) with drawn options; python-level property
     checks report through `rep`; returns the Gallina boolean terms (sub-checks) of this sequence."""
     recs = [x for x in script if not isinstance(x, Twin)]
@@ -698,6 +708,9 @@ def run_sequence(ctx, rep, rnd, idx, script, workdir, cfgname="gen_cfg", collect
     for variant in range(2):
         o = dict(sel) if variant == 0 else {}
         o["lineterminator"] = rnd.choice(TERMS)
+        if plan:
+            o = dict(plan["csv"][variant])
+            o.setdefault("lineterminator", None)
         term = resolve_escapes(o["lineterminator"] or "\r\n")
         path = os.path.join(workdir, "s%d_%d.csv" % (idx, variant))
         data, err, ename = run_writer("csvfile", path, script, o, via_kwargs=rnd.random() < 0.3)
@@ -709,7 +722,7 @@ def run_sequence(ctx, rep, rnd, idx, script, workdir, cfgname="gen_cfg", collect
             cls = dict(writer="csv", cls=tcls or "raises")
             rep.fail(cls, "CsvfileWriter raised %s on a valid record" % err, dict(error=err, **meta))
         else:
-            want = expected_csv_rows(obss, o)
+            want = [[canon(c) for c in r] for r in expected_csv_rows(obss, o)]
             try:
                 pyrows = py_csv_rows(data)
             except Exception as e:  # noqa
@@ -732,6 +745,8 @@ def run_sequence(ctx, rep, rnd, idx, script, workdir, cfgname="gen_cfg", collect
     for variant in range(2):
         o = dict(sel) if variant == 0 else {}
         o["verbose"] = rnd.random() < 0.5
+        if plan:
+            o = dict(plan["line"][variant])
         path = os.path.join(workdir, "s%d_%d.line" % (idx, variant))
         data, err, ename = run_writer("line", path, script, o, via_kwargs=rnd.random() < 0.3)
         texts = sel_texts(o)
@@ -752,6 +767,8 @@ def run_sequence(ctx, rep, rnd, idx, script, workdir, cfgname="gen_cfg", collect
             o["format_spec"] = gen_template(rnd, recs)
         elif rnd.random() < 0.15:
             o["format_spec"] = ""
+        if plan:
+            o = dict(plan["text"][variant])
         path = os.path.join(workdir, "s%d_%d.txt" % (idx, variant))
         data, err, ename = run_writer("text", path, script, o, via_kwargs=rnd.random() < 0.3)
         meta = dict(kind="text", seq=idx, origin=origin, opts=o, records=script_repr)
@@ -802,7 +819,7 @@ def line_oracle(rep, obss, all_flat, o, data, meta):
         expected_lines.append(("H", "--[ RECORD %d ]--" % n))
         for k in selected_keys(list(d), o.get("fields"), o.get("exclude")):
             key = "%s (%s)" % (k, d[k][1]) if o.get("verbose") else k
-            expected_lines.append(("F", key + " = " + ("None" if d[k][2] is None else d[k][2])))
+            expected_lines.append(("F", canon(key + " = " + ("None" if d[k][2] is None else d[k][2]))))
     has_lf = any("\n" in s for kind, s in expected_lines if kind == "F")
     lines = text.split("\n")
     ok = text.endswith("\n") and len(lines) - 1 == len(expected_lines)
@@ -1075,6 +1092,39 @@ def gen_safe_sequence(rnd, idx):
     return recs
 
 
+def witness_sequences():
+    """Deterministic totality sweep (sequence indices -1, -2, ...): records whose text values hold surrogate-escaped
+    bytes (what the string type makes of bytes that are not UTF-8, U+DC80..U+DCFF), delimiters, quotes and line
+    breaks, through EVERY writer mode: csv (CRLF / LF), line (plain / verbose), text (repr / templates with plain,
+    converted and spec'd placeholders).  None of them may fail; outputs are compared like any other sequence."""
+    from flow.record import RecordDescriptor
+    from flow.record.fieldtypes import path as _path
+    D = RecordDescriptor("wit/esc", [("string", "s"), ("uri", "u"), ("path", "p"), ("string[]", "l"), ("varint", "n")])
+    raw = b"caf\xe9"                      # latin-1 bytes, not valid UTF-8
+    r1 = D(s=raw, u="http://x/\udcff", p=_path.from_posix("/tmp/\udc80x"), l=["a\udce9"], n=1, _generated=TS)
+    r2 = D(s='q"\udcfe,;', u="\udca9\udcc3", p=None, l=[], n=None, _source="src\udc81", _generated=TS)
+    r3 = D(s="R\u00e9\udceamy \U0001f600", u="plain", p="rel/\udcff", l=["x", "\udc80"], n=-7, _generated=TS)
+    plans = [
+        dict(csv=[{}, {"lineterminator": "\\n"}], line=[{}, {"verbose": True}],
+             text=[{}, {"format_spec": "{s}"}]),
+        dict(csv=[{"fields": "s,u"}, {"exclude": "_generated,_version", "lineterminator": "\n"}],
+             line=[{"fields": "s"}, {"verbose": True, "exclude": "n"}],
+             text=[{"format_spec": "{s!s}|{u}|{p}|{_source}"}, {"format_spec": "{n}\\t{s:>12}|{u:<6}|{s!r}|{zz}"}]),
+        dict(csv=[{"fields": ["u", "l"]}, {}], line=[{"fields": ["u", "l", "p"]}, {}],
+             text=[{"format_spec": "{u}"}, {"format_spec": "{{{p}}} {l} {s:^10}"}]),
+    ]
+    return [(-(k + 1), [r1, r2, r3], plan) for k, plan in enumerate(plans)]
+
+
+def run_witness_sequences(ctx, rep, workdir, cfgname="gen_cfg", only=None):
+    terms = []
+    for idx, recs, plan in witness_sequences():
+        if only is not None and idx != only:
+            continue
+        terms += run_sequence(ctx, rep, seq_rnd(0, 10 ** 6 - idx), idx, recs, workdir, cfgname, origin="witness", plan=plan)
+    return terms
+
+
 def seq_rnd(seed, idx):
     return random.Random(seed * 1000003 + idx)
 
@@ -1084,6 +1134,7 @@ def build_cases(ctx, rep, rnd, nseq, workdir, cfgname="gen_cfg"):
     written_safe = []
     with warnings.catch_warnings():
         warnings.simplefilter("ignore")
+        allterms += run_witness_sequences(ctx, rep, workdir, cfgname)
         for idx in range(nseq):
             rnd = seq_rnd(ctx.seed, idx)
             recs = gen_sequence(rnd, idx, hostile=True)
@@ -1138,7 +1189,9 @@ RULE = (
     "str/list with unknown and duplicate names, exclude, lineterminator in escaped and raw form, verbose, format_spec "
     "templates with !r/!s/!a, :spec, unknown names, doubled braces, escapes); plus csv.writer/csv.reader/UTF-8 encoder cases "
     "against the environment models, normalize_fieldname names and CSV files with unambiguous content read back through "
-    "CsvfileReader over 4 delimiters.  distinct = distinct canonical (writer, options, observed records) tuple; a "
+    "CsvfileReader over 4 delimiters; plus a deterministic totality sweep: records with surrogate-escaped bytes "
+    "(U+DC80..U+DCFF) in string/uri/path/string[] values through every writer mode (csv CRLF/LF, line plain/verbose, text "
+    "repr and templates with plain/converted/spec'd placeholders), also run in the search stage.  distinct = distinct canonical (writer, options, observed records) tuple; a "
     "read-back case whose delimiter csv.Sniffer does not identify is counted trivial")
 
 
@@ -1315,6 +1368,12 @@ def replay(obj):
             warnings.simplefilter("ignore")
             if kind in ("csv", "line", "text", "text-form", "grouped-shadow") and "seq" in obj:
                 idx = int(obj["seq"])
+                out = str(work / "out")
+                os.makedirs(out, exist_ok=True)
+                if obj.get("origin") == "witness":
+                    run_witness_sequences(rctx, rep, out, only=idx)
+                    print("replay: the case %s" % ("still fails" if rctx.failures else "passes on the current tree"))
+                    return 1 if rctx.failures else 0
                 rnd = seq_rnd(rctx.seed, idx)
                 script = gen_safe_sequence(rnd, idx) if obj.get("origin") == "safe" else gen_sequence(rnd, idx, hostile=True)
                 out = str(work / "out")
